@@ -26,4 +26,6 @@ def run(rep: Report, tier: str, only=None) -> None:
 	rep.run_jobs(jobs)
 	if not only or 'O4' in only:
 		rep.run_closed('O4.prop_keys', H, 'prop_keys_closed', {}, 'prop_keys() of every node class equals the MRO-ordered, definition-ordered list read from the class bodies, in two asking orders with the memo cleared (closed)')
+	if not only or 'O5' in only:
+		rep.run_closed('O5.pipeline', 'harness.c09_pipeline', 'pipeline_closed', {}, '7 programs (generic inheritance with an inherited type-variable attribute, one / two / three imported names, try with one / two except clauses, a class with loops, comprehension, enum) as loaded modules: recording Procedure whose handler resolves the type of every node (snapshot of the flattened tree as expectation), second run, and the real Py2Cpp.transpile (closed)')
 	rep.check_recorded()
